@@ -431,6 +431,7 @@ func runC04(c *config) {
 	} {
 		c04Check(c, src, "patterns", false)
 	}
+	c04Placeholders(c) // blockaddress placeholders and parent links against Proofs/PlaceholderProofs.v (c04ph.go)
 	c04Bindings(c)
 	_ = o
 }
